@@ -8,6 +8,7 @@ import (
 	"path/filepath"
 	"strconv"
 	"strings"
+	"syscall"
 	"time"
 	"verif/internal/names"
 
@@ -81,19 +82,33 @@ func SysGen() *rapid.Generator[Case] {
 	})
 }
 
+// sysProp: a child that does not finish is only reported as a hang when it does not finish twice, the second time with
+// a doubled allowance (a program of a few dozen operations takes well under a second; this is about deadlocks, not speed).
 func sysProp(c Case, x *h.Ctx) *h.Violation {
 	x.Label("leg=system")
+	v, hung := sysAttempt(c, x, 30*time.Second)
+	if !hung {
+		return v
+	}
+	v2, hung2 := sysAttempt(c, &h.Ctx{}, 60*time.Second)
+	if hung2 {
+		return v2
+	}
+	panic(h.Infra{Msg: "the child did not finish within 30 s but did on a second attempt (slow machine): case not judged"})
+}
+
+func sysAttempt(c Case, x *h.Ctx, allowance time.Duration) (viol *h.Violation, hung bool) {
 	p := &c.Sys.Program
 	work, done := h.Scratch("c11sys")
 	defer done()
 	root := filepath.Join(work, "db")
 	if err := os.MkdirAll(root, 0o755); err != nil {
-		panic(err)
+		panic(h.Infra{Msg: "harness file operation failed: " + err.Error()})
 	}
 	pj, _ := json.Marshal(p)
 	pfile := filepath.Join(work, "program.json")
 	if err := os.WriteFile(pfile, pj, 0o644); err != nil {
-		panic(err)
+		panic(h.Infra{Msg: "harness file operation failed: " + err.Error()})
 	}
 	ack := filepath.Join(work, "ack")
 	build := os.Getenv("VERIF_BUILD")
@@ -103,7 +118,7 @@ func sysProp(c Case, x *h.Ctx) *h.Violation {
 	cmd := exec.Command(filepath.Join(build, "runner"), pfile, root, ack)
 	if sc := c.Sys.Syscall; sc != nil {
 		x.Label("leg=system-syscall-fault")
-		calls := map[string]string{"": "write", "read": "read,pread64", "sync": "fsync,fdatasync"}[sc.Call]
+		calls := map[string]string{"": "write,pwrite64,writev,pwritev,pwritev2", "read": "read,pread64,readv,preadv,preadv2", "sync": "fsync,fdatasync,sync_file_range"}[sc.Call]
 		if calls == "" || (sc.Call == "read" && sc.File == "") {
 			panic(h.Infra{Msg: "bad syscall fault in case"})
 		}
@@ -117,6 +132,7 @@ func sysProp(c Case, x *h.Ctx) *h.Violation {
 		cmd = exec.Command("strace", args...)
 	}
 	cmd.Dir = work
+	cmd.SysProcAttr = &syscall.SysProcAttr{Setpgid: true} // tracer and child are killed together
 	out := &strings.Builder{}
 	cmd.Stdout, cmd.Stderr = out, out
 	if err := cmd.Start(); err != nil {
@@ -132,9 +148,10 @@ func sysProp(c Case, x *h.Ctx) *h.Violation {
 		} else if err != nil {
 			panic(h.Infra{Msg: "runner: " + err.Error()})
 		}
-	case <-time.After(30 * time.Second):
-		_ = cmd.Process.Kill()
-		return h.V("iofault/system/hang", "the child did not finish within 30 s after the injected failure %s (deadlock?)", faultDesc(c.Sys))
+	case <-time.After(allowance):
+		_ = syscall.Kill(-cmd.Process.Pid, syscall.SIGKILL)
+		<-donec
+		return h.V("iofault/system/hang", "the child did not finish within %v (twice) after the injected failure %s (deadlock?)", allowance, faultDesc(c.Sys)), true
 	}
 	for _, ln := range strings.Split(out.String(), "\n") {
 		if strings.HasPrefix(ln, "strace: ") && !strings.Contains(ln, "exiting, ptrace_syscall_info") { // (that one is a notice about a thread that went away inside a call, e.g. at execve)
@@ -189,7 +206,7 @@ func sysProp(c Case, x *h.Ctx) *h.Violation {
 		target = p.Fault.Target
 	}
 	if oerr != nil {
-		return h.V("iofault/system/"+oerr.Phase+"-failed/"+target+"/"+oerr.Class(), "%s; opening the directory afterwards failed in %s: %.600s\nchild output: %.600s", desc, oerr.Phase, oerr.Err, out.String())
+		return h.V("iofault/system/"+oerr.Phase+"-failed/"+target+"/"+oerr.Class(), "%s; opening the directory afterwards failed in %s: %.600s\nchild output: %.600s", desc, oerr.Phase, oerr.Err, out.String()), false
 	}
 	// A fired fault that neither stopped the child nor surfaced in a client call is not an alarm by itself: the
 	// statement asks that the failing operation (merge / compaction / flush) returns an error, which a background loop
@@ -244,7 +261,7 @@ func sysProp(c Case, x *h.Ctx) *h.Violation {
 		d = crash.Diff(patched, got)
 	}
 	if d != "" {
-		return h.V("iofault/system/content/"+target, "%s; the directory afterwards does not hold the acknowledged operations (expected vs found: %s): an incomplete output was installed or acknowledged data was dropped\nchild output: %.600s", desc, d, out.String())
+		return h.V("iofault/system/content/"+target, "%s; the directory afterwards does not hold the acknowledged operations (expected vs found: %s): an incomplete output was installed or acknowledged data was dropped\nchild output: %.600s", desc, d, out.String()), false
 	}
 	x.Label("fault-target=" + target)
 	if armed {
@@ -275,7 +292,7 @@ func sysProp(c Case, x *h.Ctx) *h.Violation {
 		x.Label("syscall-fault-effect=" + map[string]string{"": "write", "read": "read", "sync": "fsync"}[sc.Call] + "/" + eff)
 	}
 	x.SetNonTrivial(fired || (c.Sys.Syscall != nil && (exit != 0 || opErr)))
-	return nil
+	return nil, false
 }
 
 func faultDesc(sc *SysCase) string {
